@@ -829,7 +829,7 @@ func runFuzz(pl *plan, bin string, st stage, runDir string, m *merged) int {
 		aout, aerr := again.CombinedOutput()
 		if aerr == nil {
 			os.Remove(dst)
-			fmt.Printf("NOTE property=%s a fuzz worker died on an input that holds when it is run alone (load on the machine); the campaign ended there after %d executions\n", pl.ID, execs)
+			fmt.Printf("NOTE property=%s a fuzz worker died on an input that holds when it is run alone (not reproducible from the saved input: load on the machine, or state the worker process had built up); the campaign ended there after %d executions\n", pl.ID, execs)
 			m.stages[len(m.stages)-1]["note"] = fmt.Sprint(m.stages[len(m.stages)-1]["note"], "; ended early: a worker died on an input that holds when run alone")
 			return 0
 		}
